@@ -559,8 +559,18 @@ def report(prop, mine, results, missing, seed, wall, args):
             if rep['paths'] == 0 and not rep['unsupported'] and not rep['errors'] and not lost:
                 crashes.append((rep['qname'], 'vacuous: no feasible path (contradictory precondition?)'))
             if rep.get('uncovered'):
-                crashes.append((rep['qname'], 'vacuous: return/raise never reached on a feasible path (cut off by an '
-                                              'assumption?): ' + '; '.join(rep['uncovered'])))
+                # several contracts may divide the inputs of ONE function between them (frozen__from_write: writers
+                # that write through the file object / programs that write through its descriptor): an exit is
+                # vacuous only if NO contract of the function reaches it
+                base_q = rep['qname'].split('#')[0]
+                others = [r2['rep'] for r2 in results if r2.get('kind') == 'function' and 'rep' in r2
+                          and r2['rep'] is not rep and r2['rep']['qname'].split('#')[0] == base_q
+                          and not r2['rep'].get('refinement_of')
+                          and not r2['rep']['unsupported'] and not r2['rep']['errors'] and r2['rep']['paths'] > 0]
+                still = [u for u in rep['uncovered'] if all(u in (o.get('uncovered') or []) for o in others)]
+                if still:
+                    crashes.append((rep['qname'], 'vacuous: return/raise never reached on a feasible path (cut off by '
+                                                  'an assumption?): ' + '; '.join(still)))
             if not rep['clauses'] and not rep['unsupported'] and not rep['errors'] and not lost:
                 crashes.append((rep['qname'], 'vacuous: zero obligations generated'))
             for name, cl in rep['clauses'].items():
